@@ -452,6 +452,14 @@ func (c *Ctx) lenGuardedBufferLoop(fn *ssa.Function, l *natLoop, calls []ssa.Cal
 					return true
 				}
 			}
+			// a library helper that consumes from the same buffer on every call
+			if callee := ir.Callee(call); callee != nil && c.P.InLib(callee) && c.consumerFuncs()[callee] {
+				for _, a := range call.Common().Args {
+					if resolvedPath(a) == recv {
+						return true
+					}
+				}
+			}
 		}
 	}
 	return false
@@ -476,7 +484,8 @@ func (c *Ctx) ruleR(rule string, in func(*ssa.Function) bool) int {
 			switch {
 			case ok:
 			case class == "unknown":
-				o.Status, o.Detail = "undecided", detail
+				// termination of an arbitrary loop is not decided by this rule
+				o.Status, o.What = "info", "not decided for this shape: "+detail
 			default:
 				o.Status, o.Detail = "violation", detail
 			}
